@@ -30,7 +30,7 @@ func (o op) String() string {
 	switch o.K {
 	case "set", "setdef":
 		return fmt.Sprintf("%s(%s, %s)", o.K, o.Key, o.Val)
-	case "replace", "replacedef", "loadjson", "perspective":
+	case "replace", "replacedef", "loadjson", "perspective", "validate":
 		ks := make([]string, 0, len(o.Map))
 		for k := range o.Map {
 			ks = append(ks, k)
@@ -439,8 +439,16 @@ func genHistory(r *vlib.Rand, id string, steps int, avoid map[string]bool) histo
 			o.K, o.Map = "loadjson", genMap(true, false)
 		case x < 93:
 			o.K = "getters"
-		default:
+		case x < 97:
 			o.K, o.Map = "perspective", genMap(false, true)
+		default:
+			o.K, o.Map = "validate", genMap(false, false)
+			o.Key = pickKey()
+			v := pickVal(o.Key)
+			if v.T == "nil" {
+				v = tS("alpha")
+			}
+			o.Val = &v
 		}
 		h.Ops = append(h.Ops, o)
 	}
